@@ -45,6 +45,12 @@ OpenSet(name) ==
   CASE name \in Durations -> {"durneg"}                 \* a negative duration
     [] name = "TLS-CONFIG" -> {"nil"}
     [] OTHER -> {}
+\* where an object refuses a value that is valid for the option in general: REP and RESPONDENT (socket and contexts)
+\* want positive send / receive deadlines (they cannot be switched off again); UNSUBSCRIBE of a topic that is not
+\* subscribed
+Narrowed(o, n, cls) ==
+  \/ n \in {"RECV-DEADLINE", "SEND-DEADLINE"} /\ cls = "dur0" /\ o \in {"sock-rep", "ctx-rep", "sock-respondent", "ctx-respondent"}
+  \/ n = "UNSUBSCRIBE"
 \* names that exist only for reading
 ReadOnly == {"RAW", "LOCAL-ADDR", "REMOTE-ADDR", "TLS-STATE", "HTTP-REQUEST", "PEER-PID", "PEER-UID", "PEER-GID", "PEER-ZONE",
              "WEBSOCKET-MUX", "WEBSOCKET-HANDLER"}
@@ -71,9 +77,10 @@ Set(o, n, cls, r) ==
             /\ sup' = [x \in DOMAIN sup \cup {k} |-> IF x = k THEN "rw" ELSE sup[x]]
             /\ val' = [x \in DOMAIN val \cup {k} |-> IF x = k THEN cls ELSE val[x]]
        [] r = "ErrBadValue" ->
-            \* the option is supported but this value is refused.  Valid values may be refused only where an
-            \* object narrows the documented range (REP / RESPONDENT deadlines must be positive, write-only
-            \* unsubscribe of an absent topic): allowed, but then never ErrBadOption later
+            \* the option is supported but this value is refused: a value outside the documented type and range - or
+            \* one of the listed places where an object narrows the range (Narrowed).  Every other valid value of a
+            \* supported option is accepted: in particular a zero duration (= no limit) and a maximum below a minimum.
+            /\ cls \notin ValidSet(n) \/ Narrowed(o, n, cls)
             /\ s \in {"?", "rw", "r?"}
             /\ sup' = [x \in DOMAIN sup \cup {k} |-> IF x = k THEN "rw" ELSE sup[x]]
             /\ UNCHANGED val
